@@ -406,7 +406,7 @@ class ApiHistories(Contract):
     has_native = True
     native_shards = 4
     props = ("C01", "C02", "C05", "C09")
-    bounded_scope = "seeded operation sequences of length 6-14 over {create group/points/curve/data, create a points object without write-through (save_on_creation=False), rename, flag, move, copy, copy then edit the copy's values in place, remove a vertex, move a data set to another object, switch a delete permission off and ask for the removal (also after a re-open), remove through the workspace / through the parent, property-group add/remove, a property group asked to list another object's data, re-open, gc}: 40 sequences (quick) / 600 (thorough) + 16 fixed; WF(file) after every close, live tree == re-opened tree, removed entities stay gone, idle open/close leaves all node digests unchanged"
+    bounded_scope = "seeded operation sequences of length 6-14 over {create group/points/curve/data, create a points object without write-through (save_on_creation=False), rename, flag, move, copy, copy then edit the copy's values in place, remove a vertex, move a data set to another object, switch a delete permission off and ask for the removal (also after a re-open), remove through the workspace / through the parent, property-group add/remove, a property group asked to list another object's data, re-open, gc}: 40 sequences (quick) / 600 (thorough) + 18 fixed; WF(file) after every close, live tree == re-opened tree, removed entities stay gone, idle open/close leaves all node digests unchanged"
     fixed = [
         [("group", 0, 0), ("points", 0, 0), ("data", 0, 0), ("data", 0, 0), ("data", 0, 0), ("data", 0, 0), ("remove_ws", 0, 0), ("reopen", 0, 0)],
         [("points", 0, 0), ("data", 0, 0), ("data", 0, 0), ("pg_add", 0, 1), ("pg_add", 0, 0), ("remove_ws", 2, 0), ("reopen", 0, 0)],
@@ -422,6 +422,9 @@ class ApiHistories(Contract):
         [("group", 0, 0), ("points", 0, 0), ("deferred", 0, 0), ("deferred", 1, 0), ("data", 1, 0), ("reopen", 0, 0), ("deferred", 0, 0), ("reopen", 0, 0)],
         [("points", 0, 0), ("points", 0, 0), ("data", 0, 0), ("data", 1, 0), ("pg_foreign", 0, 0), ("reopen", 0, 0), ("pg_foreign", 1, 0), ("reopen", 0, 0)],
         [("points", 0, 0), ("points", 0, 0), ("data", 0, 0), ("pg_add", 0, 0), ("remove_foreign_pg", 0, 0), ("reopen", 0, 0)],
+        # a property group created after its members (it sits behind them in the child list), then the whole object removed in the same session
+        [("points", 0, 0), ("data", 0, 0), ("data", 0, 0), ("pg_add", 0, 1), ("remove_ws", 0, 0), ("reopen", 0, 0)],
+        [("group", 0, 0), ("points", 0, 0), ("data", 0, 0), ("data", 0, 0), ("pg_add", 0, 1), ("pg_add", 0, 0), ("remove_ws", 1, 0), ("gc", 0, 0), ("reopen", 0, 0)],
         [("points", 0, 0), ("data", 0, 0), ("pg_add", 0, 0), ("list_registries", 0, 0), ("pg_drop", 0, 0), ("gc", 0, 0), ("list_registries", 0, 0), ("reopen", 0, 0), ("list_registries", 0, 0)],
         [("group", 0, 0), ("curve", 0, 0), ("data", 0, 0), ("data", 0, 0), ("copy_edit", 0, 0), ("remove_vertex", 0, 2), ("reopen", 0, 0)],
     ]
